@@ -14,7 +14,7 @@ for pid, d in sorted(CHECKS.items()):
         evidence_file=f'/verif/evidence/{pid}.json',
         replay_cmd_template=f'./check {pid} --replay {{path}}',
         engine='mc',
-        level_claimed=dict(category='model_checking', text=d['text'], design_ref=d['design_ref']),
+        level_claimed=dict(category='model_checking', text=d['text'] + f' The systems actually built, their alphabets, bounds per tier and measured state/transition counts are in DESIGN.md section 3 ("As built") and /verif/reports/{pid}.md; every run writes what it covered to the evidence file.', design_ref=d['design_ref']),
         level_note=d['note'],
         technique=d['technique'],
     ))
